@@ -25,14 +25,14 @@ import (
 )
 
 type Finding struct {
-	Property     string   `json:"property"`
-	Obligation   string   `json:"obligation"`
-	CarveOut     string   `json:"carve_out,omitempty"`
-	ExcludeKinds []string `json:"exclude_kinds,omitempty"`
-	WitnessPkg   string   `json:"witness_pkg"`
-	WitnessFile  string   `json:"witness_file"`
-	WitnessExpect string  `json:"witness_expect,omitempty"` // output substring that counts as reproduced (crashing witnesses)
-	Text         string   `json:"text"`
+	Property      string   `json:"property"`
+	Obligation    string   `json:"obligation"`
+	CarveOut      string   `json:"carve_out,omitempty"`
+	ExcludeKinds  []string `json:"exclude_kinds,omitempty"`
+	WitnessPkg    string   `json:"witness_pkg"`
+	WitnessFile   string   `json:"witness_file"`
+	WitnessExpect string   `json:"witness_expect,omitempty"` // output substring that counts as reproduced (crashing witnesses)
+	Text          string   `json:"text"`
 }
 
 type Findings struct {
@@ -50,18 +50,18 @@ func (f *Findings) Match(prop, obl string) *Finding {
 }
 
 type Env struct {
-	Repo, Verif string
-	Prog        *load.Program
-	CS          *contract.Set
-	Tables      map[string]symex.Val
-	Raw         map[string]json.RawMessage
-	Findings    *Findings
-	FuncTables  map[string]*symex.FuncTable
+	Repo, Verif  string
+	Prog         *load.Program
+	CS           *contract.Set
+	Tables       map[string]symex.Val
+	Raw          map[string]json.RawMessage
+	Findings     *Findings
+	FuncTables   map[string]*symex.FuncTable
 	RegexpSubexp map[string]int
-	Tier        string
-	Seed        int
-	Scratch     string
-	Timeout     time.Duration
+	Tier         string
+	Seed         int
+	Scratch      string
+	Timeout      time.Duration
 }
 
 type FuncInfo struct {
@@ -71,18 +71,19 @@ type FuncInfo struct {
 }
 
 type Gen struct {
-	Jobs      []run.Job
-	NotGen    []symex.NotGenerated
-	Funcs     []FuncInfo
-	Notes     []string
-	Trusted   map[string]bool
-	Inlined   map[string]bool
-	Used      map[string]bool
-	OutOfDate []string
-	Unverified []string // the "not covered" column of DESIGN.md §0
+	Jobs        []run.Job
+	NotGen      []symex.NotGenerated
+	Funcs       []FuncInfo
+	Notes       []string
+	Trusted     map[string]bool
+	Inlined     map[string]bool
+	Used        map[string]bool
+	OutOfDate   []string
+	Unverified  []string // the "not covered" column of DESIGN.md §0
 	Assumptions []string
-	Extra     map[string]interface{}
-	Static    []frame.Result // obligations discharged by SSA data-flow
+	Extra       map[string]interface{}
+	Static      []frame.Result  // obligations discharged by SSA data-flow
+	done        map[string]bool // contracts already verified by this check (dependency waves)
 }
 
 func newGen() *Gen {
@@ -195,12 +196,13 @@ func loadBaseline(verif string) Baseline {
 }
 
 type oblReport struct {
-	Name    string `json:"name"`
-	Kind    string `json:"kind"`
-	Backend string `json:"backend"`
-	Result  string `json:"result"`
-	Ms      int64  `json:"ms"`
-	Pos     string `json:"pos,omitempty"`
+	Name        string   `json:"name"`
+	Kind        string   `json:"kind"`
+	Backend     string   `json:"backend"`
+	Result      string   `json:"result"`
+	Ms          int64    `json:"ms"`
+	Pos         string   `json:"pos,omitempty"`
+	ConfirmedBy []string `json:"confirmed_by,omitempty"`
 }
 
 // Run executes one property check. Returns the process exit code.
@@ -231,8 +233,9 @@ func Run(id, repo, verif, tier string, seed int, writeBaseline bool) int {
 			g.Jobs[i].ExpectFail = true
 		}
 	}
+	run.ConfirmAll = tier == "thorough"
 	res := run.Discharge(g.Jobs, env.Timeout, seed, 12)
-	bounded := []string{} // bounded stand-ins: run on every check, never counted as discharged
+	bounded := []string{}      // bounded stand-ins: run on every check, never counted as discharged
 	dynamic := []interface{}{} // thorough tier: random evaluation on the real code, never counted as discharged
 	for _, sr := range g.Static {
 		kind, backend := sr.Kind, sr.Backend
@@ -268,6 +271,7 @@ func Run(id, repo, verif, tier string, seed int, writeBaseline bool) int {
 	nObl, nDis := 0, 0
 	backends := map[string]int{}
 	var solverMs int64
+	nConfirmed1, nConfirmed2 := 0, 0
 	for _, r := range res {
 		name := StableName(r.Obl.Name)
 		solverMs += r.Ms
@@ -287,7 +291,13 @@ func Run(id, repo, verif, tier string, seed int, writeBaseline bool) int {
 		if !r.OK() {
 			gr.ok = false
 		}
-		reports = append(reports, oblReport{Name: name, Kind: r.Obl.Kind, Backend: r.Solver, Result: string(r.Status), Ms: r.Ms, Pos: r.Obl.Pos})
+		reports = append(reports, oblReport{Name: name, Kind: r.Obl.Kind, Backend: r.Solver, Result: string(r.Status), Ms: r.Ms, Pos: r.Obl.Pos, ConfirmedBy: r.Confirmed})
+		if len(r.Confirmed) >= 2 {
+			nConfirmed2++
+		}
+		if len(r.Confirmed) >= 1 {
+			nConfirmed1++
+		}
 	}
 	if len(canaryBroken) > 0 {
 		fmt.Printf("ENGINE ERROR: vacuity guard failed (contradictory assumptions): %s\n", strings.Join(canaryBroken, "; "))
@@ -489,6 +499,7 @@ func Run(id, repo, verif, tier string, seed int, writeBaseline bool) int {
 		"unverified_remainder":     g.Unverified,
 		"bounded_standins":         bounded,
 		"dynamic_crosschecks":      dynamic,
+		"thorough_confirmation":    map[string]interface{}{"enabled": tier == "thorough", "smt_instances_answered_unsat_by_at_least_one_solver_in_the_rerun": nConfirmed1, "by_at_least_two_different_solvers": nConfirmed2, "what": "thorough tier only: every discharged SMT instance is given again to z3 4.8.12, z3 5.1.0 and cvc5 1.0 (10 s each); a sat answer against an unsat answer is an engine error"},
 		"vacuity_canaries":         countCanaries(res),
 		"notes":                    g.Notes,
 	}
